@@ -580,10 +580,14 @@ func valueOf(in ssa.Instruction) ssa.Value {
 // mergesAccumulate: where the rules of several matching element patterns are merged into one per-call table
 // (matchRegex for attributes, sanitizeStyles for styles) every update has the form m[k] = append(m[k], rules...):
 // an assignment m[k] = rules would make one pattern's rules replace another's for the same attribute / property.
-func mergesAccumulate(c *Ctx, rule string) {
+func mergesAccumulate(c *Ctx, rule string, only ...string) {
 	R := c.R
 	n := 0
-	for _, name := range []string{"(*Policy).matchRegex", "(*Policy).sanitizeStyles"} {
+	names := []string{"(*Policy).matchRegex", "(*Policy).sanitizeStyles"}
+	if len(only) > 0 {
+		names = only
+	}
+	for _, name := range names {
 		fn := c.P.Func(load.ModPath, name)
 		if fn == nil {
 			continue
@@ -633,5 +637,5 @@ func mergesAccumulate(c *Ctx, rule string) {
 			}
 		}
 	}
-	R.Role(rule, "merges of pattern rules", n, 2)
+	R.Role(rule, "merges of pattern rules", n, len(names))
 }
